@@ -5,9 +5,9 @@ Per generated case (boundary-heavy, dyadic data, so floats and Qc see the same n
  (i)  correspondence: f.prox(v, lam) of the real code vs the Coq model of the prox body
       (C02.Models at Qc, evaluated by vm_compute in build/cases/C02_*; exact where the formula
       is ring-only, 2^-30 relative where a sqrt/division is involved; norms computed by the
-      implementation are passed in and checked through their square inside Coq).  For the two
-      units whose faithful model is refuted (L0Norm, L2BallIndicator) the output is compared
-      with the faithful model AND with the proved minimiser.
+      implementation are passed in and checked through their square inside Coq).  For the unit
+      whose faithful model is refuted (L0Norm) the output is compared with the faithful model
+      AND with the proved minimiser.
  (ii) oracle independent of the model: objective at the returned point vs at candidate and
       perturbed points (a strictly better point is the replay), subgradient certificate and
       firm non-expansiveness on pairs for convex f, result in dom f.
@@ -634,8 +634,7 @@ def coq_cases(c, out):
         return [("model", grouped(8, [], [one_group(v, out, 0.0)]))]
     if u == "L2BallIndicator":
         nv = float(np.linalg.norm(fv))
-        return [("model", grouped(9, [c["radius"]], [one_group(v, out, nv)])),
-                ("spec", grouped(10, [c["radius"]], [one_group(v, out, nv)]))]
+        return [("model", grouped(9, [c["radius"]], [one_group(v, out, nv)]))]
     if u == "ZeroFunctional":
         return [("model", grouped(11, [], [one_group(v, out, 0.0)]))]
     if u in ("SetDistance", "SquaredSetDistance"):
@@ -715,8 +714,6 @@ def annotate(c):
         if c["unit"] == "Loss":
             a = np.abs(flat(v) - flat(dec(c["y"])))
         inp["ratios"] = [[float(t / lam), float(t * t / (2 * lam))] for t in a]
-    if c["unit"] == "L2BallIndicator":
-        inp["norm_v"] = float(np.linalg.norm(flat(v)))
     return inp
 
 
@@ -770,9 +767,8 @@ def run(ctx: Ctx):
     if not getattr(ctx, "no_proofs", False):
         ctx.proofs()
         try:
-            coq_make(["Findings/C02_L0Norm.vo", "Findings/C02_L2Ball.vo"])
-            ctx.notes.append("Findings/C02_L0Norm.v and Findings/C02_L2Ball.v (refutations of the full statements "
-                             "for the faithful models) compile")
+            coq_make(["Findings/C02_L0Norm.vo"])
+            ctx.notes.append("Findings/C02_L0Norm.v (refutation of the full statement for the faithful model) compiles")
         except Broken as b:
             ctx.notes.append("finding no longer reproduces in Coq: " + b.what)
     ctx.trusted += [
